@@ -31,7 +31,7 @@ ASSUMPTIONS = [
     "end-to-end equality of the read-back tree with the input tree is NOT a machine-checked theorem: what is checked is that every encode/decode pair on the path is inverse and that unrepresentable inputs are refused; the composition is an argument in prose",
     "C01.table.roundtrip and C01.frag.location are the composition of C03.write_table / C03.frag_write (locations recorded = where each chunk went, proved with loop contracts) with C05/C10 read_table / frag_lookup; not repeated here",
     "C01.bp.append_safe (append for every (size, current block) state incl. size 0) is C13.append.no_crash / accounts_all_bytes in harness/C13/bp_append.c; not repeated here",
-    "payload shapes are concrete and bounded: file inodes <= 2 block words, symlink targets <= 12 bytes, directory index <= 2 entries, directory listings <= 2 entries with names <= 2 bytes, xattr values <= 4 bytes, pack file path 3 bytes, block history <= 4 blocks; all field values symbolic",
+    "payload shapes are concrete and bounded: file inodes <= 2 block words, symlink targets <= 12 bytes, directory index <= 1 entry, directory listings <= 2 entries with names <= 2 bytes, xattr values <= 4 bytes, pack file path 3 bytes, block history <= 4 blocks; all field values symbolic",
     "wf_inode (precondition of the inode round trip): type bits of mode = inode type, payload_bytes_used = what the type fields announce; established by the inode constructors (C03.inode_kind / C03.dir.inode_kind)",
     "directory entries: inode reference block < 2^32 (the 32 bit start_block field of the directory header); a larger inode table is not representable and not refused by sqfs_dir_writer_add_entry - outside the claim",
     "compressor correctness, option parsing, glob matching, directory scanning are not covered",
@@ -59,7 +59,12 @@ def _inode_cases():
             for tl, tier in ((1, "quick"), (5, "quick"), (0, "thorough"), (12, "thorough")):
                 out.append(dict(id="%s_t%d" % (n, tl), tier=tier, defines={"ITYPE": t, "TL": tl}))
         elif n == "dir_ext":
-            for ni, tier in ((0, "quick"), (1, "quick"), (2, "thorough")):
+            # two index entries do not fit the 64 byte capture buffer of the
+            # harness (its own guard C01.env.meta_append.capture_capacity fired
+            # in the thorough tier): a limit of the harness, not of the code -
+            # the case is not registered; directory indexes are bounded by 1 here
+            # (C03.dir.inode_kind covers <= 3 entries on the writer side)
+            for ni, tier in ((0, "quick"), (1, "quick")):
                 out.append(dict(id="%s_i%d" % (n, ni), tier=tier, defines={"ITYPE": t, "NIDX": ni}))
         else:
             out.append(dict(id=n, tier="quick", defines={"ITYPE": t}, label="proved"))
@@ -67,7 +72,7 @@ def _inode_cases():
 
 HARNESSES = [
     dict(name="inode_roundtrip", file="inode_roundtrip.c",
-         label="bounded(blocks<=2,target<=12,index<=2)", timeout=300, unwind=34,
+         label="bounded(blocks<=2,target<=12,index<=1)", timeout=300, unwind=34,
          cases=_inode_cases()),
     dict(name="packfile_kinds", file="packfile_kinds.c",
          label="bounded(path length 3)", unwind=12, timeout=300,
